@@ -214,6 +214,11 @@ class Output(Formatter):
 
         section = SectionOutput(self._stream, self._section_outputs, self._formatter)
         section.indent(self._indent)
+        # A section starts out with the settings of the output it belongs to:
+        # what a quiet output (or one that is not verbose enough) would not
+        # print must not be printed through one of its sections either
+        section.set_quiet(self._quiet)
+        section.set_verbosity(self._verbosity)
 
         return section
 
